@@ -519,7 +519,14 @@ fn oracle_of(panic_msg: &str) -> String {
         // OS thread): an artefact of the simulation, not an interleaving of real threads
         return "harness-limit-thread-local".into();
     }
-    // a panic raised inside shuttle's own sources (an internal assertion of its Mutex/scheduler model)
+    if l.contains("deadlock") {
+        return "deadlock".into();
+    }
+    if l.contains("exceeded max_steps") || l.contains("max_steps") {
+        return "livelock".into();
+    }
+    // (shuttle's deadlock and step-limit reports above are verdicts about the code under test)
+    // any other panic raised inside shuttle's own sources (an internal assertion of its Mutex/scheduler model)
     // says nothing about the code under test
     if let Some(first) = panic_msg.lines().next() {
         if let Some((_, loc)) = first.rsplit_once(" @ ") {
@@ -527,12 +534,6 @@ fn oracle_of(panic_msg: &str) -> String {
                 return "harness-limit-shuttle-internal".into();
             }
         }
-    }
-    if l.contains("deadlock") {
-        return "deadlock".into();
-    }
-    if l.contains("exceeded max_steps") || l.contains("max_steps") {
-        return "livelock".into();
     }
     "panic".into()
 }
